@@ -80,6 +80,11 @@ CHECKS = {
    "Worlds of 2-4 nodes (pair, lines, diamond, parallel channels), all channel types. The sender pays by explicit single and multi-path routes, through the real router with retries, by keysend, and with routes that underpay a forwarder; duplicate payment ids, abandon_payment, restarts from any older manager snapshot with durable or last-written monitors, force closes, blocks and timer ticks are generated. Every case ends with an end game (settle, resolve what is claimable by generated choice, mine until nothing is in flight). Checked over the whole history: at quiescence every payment has exactly one terminal outcome and is no longer listed as pending; PaymentSent only with the preimage of the hash and fee_paid equal to the exact balance decrease; PaymentFailed only when no part was or can still be fulfilled; no contradicting or duplicate terminal event per manager lineage; PaymentPathFailed names the channel that really failed (wire-level origin tracking); a payment in flight is always listed; duplicate ids are refused. A second part measures amount + fee against the sender's capacity delta exactly, one payment at a time. Search, not proof.",
    "Only the sender restarts; no reorgs, BOLT-12 or async payments; exact balance equality only when no channel closed (with closures 'not understated' as the library documents); on-chain outcomes are checked for absence of a confirmed preimage claim, not by spendable-output accounting (C07's domain). Listed known findings are matched on exact mechanism keys and counted as excluded_known.",
    "DESIGN.md §6 C03"),
+ "C06": ("netsim", "exploration",
+   "model-based stateful property-based testing with an adversary and a ground-truth chain: generated channel histories, a generated choice of which revoked state the cheater confirms (or, in the second part, every revoked state of the history in turn), generated block contents / conflict winners / delivery styles / lags / fee estimates / monitor reloads; oracle = consensus simulator verdict on every victim broadcast plus final ownership of every contested output",
+   "A victim / cheater pair (all three channel types). Phase 1 is a generated update history with HTLCs in both directions, dust edges, claims, fails and fee changes; every holder commitment of the cheater is recovered from its persisted monitor images. Phase 2 confirms a chosen revoked commitment and, by generated choice, the cheater's HTLC-success / HTLC-timeout transactions (produced by a stale copy of the cheater's own monitor) before or between the victim's reactions; the victim sees blocks in a generated style with a lag, may be reloaded from its persisted state and has its claims re-issued. Checked: every victim broadcast is consensus-valid when made (script, locktime, CSV, inputs unspent as far as the victim could know); at the end every contested output of the revoked commitment and of the cheater's confirmed second-stage transactions is spent by a victim transaction before the cheater's CSV matures; re-issued claims over the same inputs never pay less; every recovered output is announced through SpendableOutputs and the sweep built from them is valid and complete; channel value is fully accounted. The second part replays one history and schedule once per revoked state. Search, not proof.",
+   "No reorgs, relay policy or pinning; the cheater's second-stage transactions use only preimages its own monitor knew at that state; momentary get_claimable_balances values are labelled, not asserted (the statement speaks about broadcasts and the final spendable report); cases that trip the library's own monitor round-trip assertion (C12's subject) are labelled foreign and skipped; one listed known finding is matched on its exact mechanism.",
+   "DESIGN.md §6 C06"),
 }
 
 NOT_YET = {
@@ -113,7 +118,7 @@ def main():
             "guard": "cargo feature _verif_hooks on the lightning crate",
             "enable": "the harness crates depend on /repo/lightning with features = [\"_test_utils\", \"_verif_hooks\"] (harness/*/Cargo.toml); every check rebuilds from /repo's working tree through that path dependency",
             "baseline_off_cmd": "cd /repo && cargo test --workspace --no-fail-fast --offline",
-            "source_commits": ["69389ac"],
+            "source_commits": ["69389ac", "71cf6b4"],
             "add_only": True,
         },
         "engines": [
